@@ -1,4 +1,510 @@
 import Cpl.Model.Ctrbl
+import Cpl.Lemmas.Ctrbl
+
+/-!
+# C15 — CTRBL rule tables and the built-in loops are rotation-closed and total
+
+`CTRBLRule` answers with the table entry for (centre, top, right, bottom, left) of the 3×3 neighbourhood
+and raises `ValueError` for an absent combination; with `add_rotations` the table is closed under the four
+quarter-turns of (top, right, bottom, left), so the answer does not depend on orientation.
+`LangtonsLoop`, `SDSRLoop` and `Evoloop` are orientation-independent over all states, and `SDSRLoop` and
+`Evoloop` are total over states 0–8 with results in 0–8, following Sayama's default rules for combinations
+outside their tables.
+
+Quantifiers: **all** user rule tables, **all** integer keys (so in particular all 8^5 / 9^5 state
+combinations).  The facts about the generated table literals (`Cpl.Gen`) are re-checked by `decide` against
+the current source on every run.
+-/
+
 namespace Cpl.C15
-theorem placeholder : True := trivial
+open Cpl Cpl.Gen Cpl.Ctrbl
+
+/-! ## 1. `CTRBLRule.__call__` -/
+
+/-- **The call answers with the table entry and raises `ValueError` for an absent combination; the key is
+    (centre, top, right, bottom, left) of the 3×3 neighbourhood.** -/
+theorem ctrbl_call :
+    (∀ (tbl : Table) (k : Key5) (v : Int), ctrblCall tbl k = .ok v ↔ tbl.lookup k = some v) ∧
+    (∀ (tbl : Table) (k : Key5), tbl.lookup k = none → ctrblCall tbl k = .error .ValueError) ∧
+    (∀ a b c d e f g h i : Int, keyOf [[a, b, c], [d, e, f], [g, h, i]] = (e, b, f, h, d)) := by
+  refine ⟨?_, ?_, ?_⟩
+  · intro tbl k v
+    unfold ctrblCall
+    cases tbl.lookup k with
+    | none => simp
+    | some w => simp
+  · intro tbl k h
+    unfold ctrblCall
+    rw [h]
+  · intros; rfl
+
+/-- The call either answers or raises `ValueError`, nothing else. -/
+theorem ctrbl_call_cases (tbl : Table) (k : Key5) :
+    (∃ v, ctrblCall tbl k = .ok v) ∨ ctrblCall tbl k = .error .ValueError := by
+  unfold ctrblCall
+  cases tbl.lookup k with
+  | none => exact Or.inr rfl
+  | some w => exact Or.inl ⟨w, rfl⟩
+
+/-! ## 2. Tables built with `add_rotations` are closed under the quarter turns -/
+
+/-- The four orientations of a key, as used below. -/
+theorem orbit_def (k : Key5) : orbit k = [k, rot k, rot (rot k), rot (rot (rot k))] := rfl
+
+/-- Four quarter turns are the identity. -/
+theorem rot_four (k : Key5) : rot (rot (rot (rot k))) = k := rot4 k
+
+/-- **For every input table, the table built with rotations answers identically on a key and on its
+    quarter turn** (absent stays absent). -/
+theorem initTable_rot_invariant (entries : List (Key5 × Int)) (k : Key5) :
+    (initTable entries true).lookup (rot k) = (initTable entries true).lookup k :=
+  initTable_rotInv entries k
+
+/-- … hence identically on all four orientations of the key. -/
+theorem initTable_orbit_invariant (entries : List (Key5 × Int)) (k k' : Key5) (h : k' ∈ orbit k) :
+    (initTable entries true).lookup k' = (initTable entries true).lookup k := by
+  rcases mem_orbit_iff.mp h with h | h | h | h <;> subst h <;>
+    simp only [initTable_rot_invariant]
+
+/-- The call on such a table does not depend on the orientation of the neighbourhood. -/
+theorem ctrbl_call_rot (entries : List (Key5 × Int)) (k : Key5) :
+    ctrblCall (initTable entries true) (rot k) = ctrblCall (initTable entries true) k := by
+  unfold ctrblCall
+  rw [initTable_rot_invariant]
+
+/-- **Which entry answers**: with rotations, the answer for `k` is the image of the *last* input entry whose
+    rotation class contains `k` (each entry writes its whole class), and `k` is absent if there is none. -/
+theorem initTable_last_wins (entries : List (Key5 × Int)) (k : Key5) :
+    (initTable entries true).lookup k
+      = (entries.reverse.find? fun e => decide (k ∈ orbit e.1)).map (·.2) :=
+  initTable_lookup entries k
+
+/-! ## 3. The built table is faithful to the input -/
+
+/-- **If the input assigns one image per rotation class, every input entry and each rotation of it answers
+    with the entry's image.** -/
+theorem initTable_faithful (entries : List (Key5 × Int))
+    (hcons : ∀ k v k' v', (k, v) ∈ entries → (k', v') ∈ entries → k' ∈ orbit k → v' = v)
+    (k : Key5) (v : Int) (hk : (k, v) ∈ entries) :
+    ∀ k' ∈ orbit k, (initTable entries true).lookup k' = some v := by
+  intro k' hk'
+  rw [initTable_lookup]
+  cases hf : entries.reverse.find? fun e => decide (k' ∈ orbit e.1) with
+  | none =>
+    have := List.find?_eq_none.mp hf (k, v) (List.mem_reverse.mpr hk)
+    simp [hk'] at this
+  | some e =>
+    have he : e ∈ entries := List.mem_reverse.mp (List.mem_of_find?_eq_some hf)
+    have hp : k' ∈ orbit e.1 := by simpa using List.find?_some hf
+    have : e.1 ∈ orbit k := mem_orbit_trans (mem_orbit_symm hp) hk'
+    have := hcons k v e.1 e.2 hk he this
+    simp [this]
+
+/-- Without any hypothesis on the input, its **last** line is honoured in all four orientations. -/
+theorem initTable_last_line (entries : List (Key5 × Int)) (e : Key5 × Int) (h : entries.getLast? = some e) :
+    ∀ k' ∈ orbit e.1, (initTable entries true).lookup k' = some e.2 :=
+  fun k' hk' => initTable_getLast entries e h k' hk'
+
+/-- **Without rotations the lookups are those of the input, later entries winning.** -/
+theorem initTable_no_rot (entries : List (Key5 × Int)) (k : Key5) :
+    (initTable entries false).lookup k = entries.reverse.lookup k := by
+  rw [initTable_false]
+
+/-- **The pairs of the built table are exactly the input pairs and, when rotating, their rotations**:
+    every key is an input key or a rotation of one, and carries that entry's image. -/
+theorem initTable_keys (entries : List (Key5 × Int)) (addRot : Bool) (k : Key5) (v : Int) :
+    (k, v) ∈ initTable entries addRot
+      ↔ ∃ k0, (k0, v) ∈ entries ∧ (k = k0 ∨ (addRot = true ∧ k ∈ orbit k0)) :=
+  mem_initTable addRot entries k v
+
+/-- In terms of answers: whatever the table answers is the image of an input entry whose key is `k`
+    or (when rotating) a rotation of `k`. -/
+theorem initTable_answer_origin (entries : List (Key5 × Int)) (addRot : Bool) (k : Key5) (v : Int)
+    (h : (initTable entries addRot).lookup k = some v) :
+    ∃ k0, (k0, v) ∈ entries ∧ (k = k0 ∨ (addRot = true ∧ k ∈ orbit k0)) :=
+  (initTable_keys entries addRot k v).mp (mem_of_lookup_eq_some h)
+
+/-- A key is present (no `ValueError`) exactly if it is an input key or, when rotating, a rotation of one. -/
+theorem initTable_defined_iff (entries : List (Key5 × Int)) (addRot : Bool) (k : Key5) :
+    (∃ v, (initTable entries addRot).lookup k = some v)
+      ↔ ∃ e ∈ entries, k = e.1 ∨ (addRot = true ∧ k ∈ orbit e.1) := by
+  constructor
+  · rintro ⟨v, hv⟩
+    obtain ⟨k0, hm, hk⟩ := initTable_answer_origin entries addRot k v hv
+    exact ⟨(k0, v), hm, hk⟩
+  · rintro ⟨e, he, hk⟩
+    exact lookup_isSome_of_mem ((initTable_keys entries addRot k e.2).mpr ⟨e.1, he, hk⟩)
+
+/-! ## 4. The built-in loops do not depend on orientation (all integer states) -/
+
+/-- The shipped tables are built with `add_rotations=True` (checked against the source). -/
+theorem builtin_add_rotations : langtonAddRotations = true ∧ evoloopAddRotations = true := by decide
+
+/-- **Langton's loop: same answer (or same `ValueError`) on a key and its quarter turn, for all integers.** -/
+theorem langton_rot (c t r b l : Int) : langtonLoop (rot (c, t, r, b, l)) = langtonLoop (c, t, r, b, l) := by
+  unfold langtonLoop langtonTable
+  rw [builtin_add_rotations.1]
+  exact ctrbl_call_rot _ _
+
+/-- **SDSR's extra assignments are closed under the quarter turn and give one image per key**
+    (checked against the source). -/
+theorem sdsrExtra_closed :
+    (∀ e ∈ sdsrExtra, (rot e.1, e.2) ∈ sdsrExtra) ∧
+    (∀ e ∈ sdsrExtra, ∀ e' ∈ sdsrExtra, e'.1 = e.1 → e'.2 = e.2) := by decide
+
+/-- SDSR's table (Langton's table overridden by the extra assignments) is rotation-invariant. -/
+theorem sdsrTable_rot (k : Key5) : sdsrTable.lookup (rot k) = sdsrTable.lookup k := by
+  have h : sdsrTable = sdsrExtra.reverse ++ langtonTable := foldl_cons_eq _ _
+  rw [h]
+  refine rotInv_append sdsrExtra langtonTable sdsrExtra_closed.1 sdsrExtra_closed.2 ?_ k
+  unfold langtonTable
+  rw [builtin_add_rotations.1]
+  exact initTable_rotInv _
+
+/-- Every extra assignment of SDSR is honoured as written (it overrides Langton's table). -/
+theorem sdsr_extras_honoured : ∀ e ∈ sdsrExtra, sdsrLoop e.1 = some e.2 := by
+  intro e he
+  have h : sdsrTable = sdsrExtra.reverse ++ langtonTable := foldl_cons_eq _ _
+  have hfun : ∀ e ∈ sdsrExtra.reverse, ∀ e' ∈ sdsrExtra.reverse, e'.1 = e.1 → e'.2 = e.2 :=
+    fun e he e' he' => sdsrExtra_closed.2 e (List.mem_reverse.mp he) e' (List.mem_reverse.mp he')
+  have hl : sdsrExtra.reverse.lookup e.1 = some e.2 :=
+    lookup_of_functional hfun (List.mem_reverse.mpr he)
+  unfold sdsrLoop
+  rw [h, List.lookup_append, hl]
+  rfl
+
+/-- **SDSR loop: same result on a key and its quarter turn, for all integers** (table part and default
+    part alike). -/
+theorem sdsr_rot (c t r b l : Int) : sdsrLoop (rot (c, t, r, b, l)) = sdsrLoop (c, t, r, b, l) := by
+  unfold sdsrLoop
+  rw [sdsrTable_rot, sdsrDefault_rot]
+
+/-- **Evoloop: same result on a key and its quarter turn, for all integers.** -/
+theorem evoloop_rot (c t r b l : Int) : evoloop (rot (c, t, r, b, l)) = evoloop (c, t, r, b, l) := by
+  unfold evoloop
+  have h : evoloopTable.lookup (rot (c, t, r, b, l)) = evoloopTable.lookup (c, t, r, b, l) := by
+    unfold evoloopTable
+    rw [builtin_add_rotations.2]
+    exact initTable_rotInv _ _
+  rw [h, evoloopDefault_rot]
+
+/-- All four orientations, spelled out. -/
+theorem loops_all_orientations (c t r b l : Int) :
+    (langtonLoop (c, l, t, r, b) = langtonLoop (c, t, r, b, l) ∧
+     langtonLoop (c, b, l, t, r) = langtonLoop (c, t, r, b, l) ∧
+     langtonLoop (c, r, b, l, t) = langtonLoop (c, t, r, b, l)) ∧
+    (sdsrLoop (c, l, t, r, b) = sdsrLoop (c, t, r, b, l) ∧
+     sdsrLoop (c, b, l, t, r) = sdsrLoop (c, t, r, b, l) ∧
+     sdsrLoop (c, r, b, l, t) = sdsrLoop (c, t, r, b, l)) ∧
+    (evoloop (c, l, t, r, b) = evoloop (c, t, r, b, l) ∧
+     evoloop (c, b, l, t, r) = evoloop (c, t, r, b, l) ∧
+     evoloop (c, r, b, l, t) = evoloop (c, t, r, b, l)) := by
+  have L1 := langton_rot c t r b l
+  have L2 := langton_rot c l t r b
+  have L3 := langton_rot c b l t r
+  have S1 := sdsr_rot c t r b l
+  have S2 := sdsr_rot c l t r b
+  have S3 := sdsr_rot c b l t r
+  have E1 := evoloop_rot c t r b l
+  have E2 := evoloop_rot c l t r b
+  have E3 := evoloop_rot c b l t r
+  simp only [rot] at L1 L2 L3 S1 S2 S3 E1 E2 E3
+  exact ⟨⟨L1, L2.trans L1, L3.trans (L2.trans L1)⟩, ⟨S1, S2.trans S1, S3.trans (S2.trans S1)⟩,
+    ⟨E1, E2.trans E1, E3.trans (E2.trans E1)⟩⟩
+
+/-! ## 6. Sayama's default rules as decision tables
+
+(The numbering follows the work plan; the totality theorems of part 5 use these and come after.) -/
+
+/-- The rules for a cell next to an 8 (shared by SDSR and Evoloop), for `c ∈ 0..7`:
+    0 and 1 become 8 when some state 2..7 is adjacent and stay unchanged otherwise;
+    2, 3, 5 become 0; 4, 6, 7 become 1. -/
+def eightSpec (c t r b l : Int) : Int :=
+  if c = 0 ∨ c = 1 then (if ∃ x ∈ [t, r, b, l], 2 ≤ x ∧ x ≤ 7 then 8 else c)
+  else if c = 2 ∨ c = 3 ∨ c = 5 then 0
+  else 1
+
+/-- Evoloop outside its table: 8 always becomes 0; next to an 8 the 8-neighbour rules;
+    otherwise undefined 0 stays 0 and undefined 1..7 become 8. -/
+def evoloopSpec (c t r b l : Int) : Int :=
+  if c = 8 then 0
+  else if 8 ∈ [t, r, b, l] then eightSpec c t r b l
+  else if c = 0 then 0
+  else 8
+
+/-- SDSR outside its table: 8 always becomes 0; next to an 8 the 8-neighbour rules (they come last in the
+    code, so they take precedence over the tube rules); otherwise the tube rules:
+    0 becomes 1 in the tube next to a 1, else stays 0;
+    1 in the tube follows an adjacent 7, else 6, else 4; 1 otherwise is undefined, so 8;
+    2 becomes 1 next to a 3, else stays 2 next to another 2, else 8;
+    4, 6, 7 in the tube next to a 0 become 0, else 8;
+    3 and 5 become 8. -/
+def sdsrSpec (c t r b l : Int) : Int :=
+  if c = 8 then 0
+  else if 8 ∈ [t, r, b, l] then eightSpec c t r b l
+  else if c = 0 then (if inTube t r b l ∧ 1 ∈ [t, r, b, l] then 1 else 0)
+  else if c = 1 then
+    (if inTube t r b l then
+       (if 7 ∈ [t, r, b, l] then 7 else if 6 ∈ [t, r, b, l] then 6 else if 4 ∈ [t, r, b, l] then 4 else 8)
+     else 8)
+  else if c = 2 then (if 3 ∈ [t, r, b, l] then 1 else if 2 ∈ [t, r, b, l] then 2 else 8)
+  else if c = 4 ∨ c = 6 ∨ c = 7 then (if inTube t r b l ∧ 0 ∈ [t, r, b, l] then 0 else 8)
+  else 8
+
+/-- "In the tube": at least two of the four neighbours are in states 1, 2, 4, 6, 7. -/
+theorem inTube_iff (t r b l : Int) :
+    inTube t r b l = true ↔ 2 ≤ [t, r, b, l].countP (fun s => decide (s ∈ [1, 2, 4, 6, 7])) := by
+  have : (fun s : Int => decide (s ∈ [1, 2, 4, 6, 7])) = fun site => mem site [1, 2, 4, 6, 7] := by
+    funext s; rw [mem_eq_decide]
+  rw [this, List.countP_eq_length_filter]
+  simp [inTube]
+
+/-- **Evoloop's sequential-override code equals the decision table, for all integer neighbours and
+    `0 ≤ c ≤ 8`.** -/
+theorem evoloop_default_eq_spec (c t r b l : Int) (h0 : 0 ≤ c) (h8 : c ≤ 8) :
+    evoloopDefault (c, t, r, b, l) = some (evoloopSpec c t r b l) := by
+  simp only [evoloopDefault, eightRules_eq, cleanup_eq, evoloopSpec, eightSpec]
+  generalize [t, r, b, l] = trbl
+  have hc : c = 0 ∨ c = 1 ∨ c = 2 ∨ c = 3 ∨ c = 4 ∨ c = 5 ∨ c = 6 ∨ c = 7 ∨ c = 8 := by omega
+  by_cases p8 : 8 ∈ trbl <;> by_cases p27 : (∃ x ∈ trbl, 2 ≤ x ∧ x ≤ 7) <;>
+  rcases hc with rfl | rfl | rfl | rfl | rfl | rfl | rfl | rfl | rfl <;> simp [p8, p27]
+
+/-- **SDSR's sequential-override code equals the decision table, for all integer neighbours and
+    `0 ≤ c ≤ 8`.** -/
+theorem sdsr_default_eq_spec (c t r b l : Int) (h0 : 0 ≤ c) (h8 : c ≤ 8) :
+    sdsrDefault (c, t, r, b, l) = some (sdsrSpec c t r b l) := by
+  have h2 : mem c [4, 6, 7] = decide (c = 4 ∨ c = 6 ∨ c = 7) := by
+    rw [Bool.eq_iff_iff]; simp [mem]
+  simp only [sdsrDefault, eightRules_eq, cleanup_eq, sdsrSpec, eightSpec, h2]
+  simp only [mem_eq_decide]
+  generalize inTube t r b l = tube
+  generalize [t, r, b, l] = trbl
+  have hc : c = 0 ∨ c = 1 ∨ c = 2 ∨ c = 3 ∨ c = 4 ∨ c = 5 ∨ c = 6 ∨ c = 7 ∨ c = 8 := by omega
+  clear h2
+  by_cases p8 : 8 ∈ trbl <;> by_cases p27 : (∃ x ∈ trbl, 2 ≤ x ∧ x ≤ 7) <;>
+  rcases hc with rfl | rfl | rfl | rfl | rfl | rfl | rfl | rfl | rfl <;> simp [p8, p27] <;>
+    (repeat' split) <;> simp_all
+
+/-- Outside 0..8 both default functions return Python's `None` (the library is only specified on 0..8). -/
+theorem defaults_none_outside (c t r b l : Int) (h : c < 0 ∨ 8 < c) :
+    sdsrDefault (c, t, r, b, l) = none ∧ evoloopDefault (c, t, r, b, l) = none := by
+  have h2 : mem c [4, 6, 7] = decide (c = 4 ∨ c = 6 ∨ c = 7) := by
+    rw [Bool.eq_iff_iff]; simp [mem]
+  have n0 : c ≠ 0 := by omega
+  have n1 : c ≠ 1 := by omega
+  have n2 : c ≠ 2 := by omega
+  have n3 : c ≠ 3 := by omega
+  have n4 : c ≠ 4 := by omega
+  have n5 : c ≠ 5 := by omega
+  have n6 : c ≠ 6 := by omega
+  have n7 : c ≠ 7 := by omega
+  have n8 : c ≠ 8 := by omega
+  have n17 : ¬(1 ≤ c ∧ c ≤ 7) := by omega
+  constructor
+  · simp [sdsrDefault, eightRules_eq, cleanup_eq, h2, n0, n1, n2, n3, n4, n5, n6, n7, n8, n17]
+  · simp [evoloopDefault, eightRules_eq, cleanup_eq, n0, n1, n2, n3, n4, n5, n6, n7, n8, n17]
+
+/-- The decision tables only produce states 0..8. -/
+theorem spec_range (c t r b l : Int) (h0 : 0 ≤ c) (h8 : c ≤ 8) :
+    (0 ≤ sdsrSpec c t r b l ∧ sdsrSpec c t r b l ≤ 8) ∧
+    (0 ≤ evoloopSpec c t r b l ∧ evoloopSpec c t r b l ≤ 8) := by
+  unfold sdsrSpec evoloopSpec eightSpec
+  constructor <;> (repeat' split) <;> omega
+
+/-! ## 5. SDSR and Evoloop are total over states 0..8, with results in 0..8 -/
+
+/-- Every image in the shipped tables is a state: Langton's in 0..7, Evoloop's and SDSR's extras in 0..8
+    (checked against the source). -/
+theorem table_images_in_range :
+    (∀ e ∈ langtonEntries, 0 ≤ e.2 ∧ e.2 ≤ 7) ∧
+    (∀ e ∈ evoloopEntries, 0 ≤ e.2 ∧ e.2 ≤ 8) ∧
+    (∀ e ∈ sdsrExtra, 0 ≤ e.2 ∧ e.2 ≤ 8) := by decide +kernel
+
+/-- Whatever SDSR's table answers is an image of Langton's table or of the extra assignments, for a key
+    with the same centre. -/
+theorem sdsrTable_answer_origin (k : Key5) (v : Int) (h : sdsrTable.lookup k = some v) :
+    ∃ e, (e ∈ langtonEntries ∨ e ∈ sdsrExtra) ∧ e.2 = v ∧ e.1.1 = k.1 := by
+  have hs : sdsrTable = sdsrExtra.reverse ++ langtonTable := foldl_cons_eq _ _
+  have hm := mem_of_lookup_eq_some h
+  rw [hs, List.mem_append, List.mem_reverse] at hm
+  rcases hm with hm | hm
+  · exact ⟨(k, v), Or.inr hm, rfl, rfl⟩
+  · obtain ⟨k0, hk0, hk⟩ := (initTable_keys _ _ k v).mp hm
+    refine ⟨(k0, v), Or.inl hk0, rfl, ?_⟩
+    rcases hk with hk | ⟨_, hk⟩
+    · rw [hk]
+    · exact (centre_of_mem_orbit hk).symm
+
+/-- **SDSR loop is total on centres 0..8 with results in 0..8** — for all integer neighbours, in particular
+    for all 9^5 combinations of states 0..8. -/
+theorem sdsr_total (c t r b l : Int) (h0 : 0 ≤ c) (h8 : c ≤ 8) :
+    ∃ v, sdsrLoop (c, t, r, b, l) = some v ∧ 0 ≤ v ∧ v ≤ 8 := by
+  unfold sdsrLoop
+  cases hl : sdsrTable.lookup (c, t, r, b, l) with
+  | some v =>
+    refine ⟨v, rfl, ?_⟩
+    obtain ⟨e, he, hv, _⟩ := sdsrTable_answer_origin _ _ hl
+    rcases he with he | he
+    · have := table_images_in_range.1 e he; omega
+    · have := table_images_in_range.2.2 e he; omega
+  | none =>
+    exact ⟨sdsrSpec c t r b l, sdsr_default_eq_spec c t r b l h0 h8, (spec_range c t r b l h0 h8).1⟩
+
+/-- **Evoloop is total on centres 0..8 with results in 0..8** — for all integer neighbours, in particular
+    for all 9^5 combinations of states 0..8. -/
+theorem evoloop_total (c t r b l : Int) (h0 : 0 ≤ c) (h8 : c ≤ 8) :
+    ∃ v, evoloop (c, t, r, b, l) = some v ∧ 0 ≤ v ∧ v ≤ 8 := by
+  unfold evoloop
+  cases hl : evoloopTable.lookup (c, t, r, b, l) with
+  | some v =>
+    refine ⟨v, rfl, ?_⟩
+    obtain ⟨k0, hk0, _⟩ := initTable_answer_origin _ _ _ _ hl
+    exact table_images_in_range.2.1 (k0, v) hk0
+  | none =>
+    exact ⟨evoloopSpec c t r b l, evoloop_default_eq_spec c t r b l h0 h8, (spec_range c t r b l h0 h8).2⟩
+
+/-- Outside their tables the loops follow the decision tables. -/
+theorem loops_follow_spec (c t r b l : Int) (h0 : 0 ≤ c) (h8 : c ≤ 8) :
+    (sdsrTable.lookup (c, t, r, b, l) = none → sdsrLoop (c, t, r, b, l) = some (sdsrSpec c t r b l)) ∧
+    (evoloopTable.lookup (c, t, r, b, l) = none → evoloop (c, t, r, b, l) = some (evoloopSpec c t r b l)) := by
+  constructor
+  · intro h; unfold sdsrLoop; rw [h]; exact sdsr_default_eq_spec c t r b l h0 h8
+  · intro h; unfold evoloop; rw [h]; exact evoloop_default_eq_spec c t r b l h0 h8
+
+/-! ## 7. Corollaries named in the property -/
+
+/-- No shipped table assigns a centre 8 anything but 0 (checked against the source; today no table key has
+    centre 8 at all). -/
+theorem table_centre_eight :
+    (∀ e ∈ langtonEntries, e.1.1 = 8 → e.2 = 0) ∧
+    (∀ e ∈ evoloopEntries, e.1.1 = 8 → e.2 = 0) ∧
+    (∀ e ∈ sdsrExtra, e.1.1 = 8 → e.2 = 0) := by decide +kernel
+
+/-- **8 always becomes 0**, in SDSR and in Evoloop, whatever the four neighbours (all integers). -/
+theorem eight_becomes_zero (t r b l : Int) :
+    sdsrLoop (8, t, r, b, l) = some 0 ∧ evoloop (8, t, r, b, l) = some 0 := by
+  constructor
+  · unfold sdsrLoop
+    cases hl : sdsrTable.lookup (8, t, r, b, l) with
+    | some v =>
+      obtain ⟨e, he, hv, hc⟩ := sdsrTable_answer_origin _ _ hl
+      rcases he with he | he
+      · rw [← hv, table_centre_eight.1 e he hc]
+      · rw [← hv, table_centre_eight.2.2 e he hc]
+    | none =>
+      show sdsrDefault (8, t, r, b, l) = some 0
+      rw [sdsr_default_eq_spec 8 t r b l (by decide) (by decide)]
+      simp [sdsrSpec]
+  · unfold evoloop
+    cases hl : evoloopTable.lookup (8, t, r, b, l) with
+    | some v =>
+      obtain ⟨k0, hk0, hk⟩ := initTable_answer_origin _ _ _ _ hl
+      have hc : k0.1 = 8 := by
+        rcases hk with hk | ⟨_, hk⟩
+        · rw [← hk]
+        · exact (centre_of_mem_orbit (mem_orbit_symm hk))
+      have hv : v = 0 := table_centre_eight.2.1 (k0, v) hk0 hc
+      rw [hv]
+    | none =>
+      show evoloopDefault (8, t, r, b, l) = some 0
+      rw [evoloop_default_eq_spec 8 t r b l (by decide) (by decide)]
+      simp [evoloopSpec]
+
+/-- **Every value Langton's loop can return lies in 0..7.** -/
+theorem langton_value_range (k : Key5) (v : Int) (h : langtonLoop k = .ok v) : 0 ≤ v ∧ v ≤ 7 := by
+  unfold langtonLoop at h
+  have hl := (ctrbl_call.1 _ _ _).mp h
+  obtain ⟨k0, hk0, _⟩ := initTable_answer_origin _ _ _ _ hl
+  exact table_images_in_range.1 (k0, v) hk0
+
+/-- Langton's loop answers exactly on the rotation classes of its listed keys, and raises `ValueError`
+    everywhere else. -/
+theorem langton_defined_iff (k : Key5) :
+    (∃ v, langtonLoop k = .ok v) ↔ ∃ e ∈ langtonEntries, k ∈ orbit e.1 := by
+  unfold langtonLoop langtonTable
+  rw [builtin_add_rotations.1]
+  constructor
+  · rintro ⟨v, hv⟩
+    obtain ⟨e, he, hk⟩ := (initTable_defined_iff _ true k).mp ⟨v, (ctrbl_call.1 _ _ _).mp hv⟩
+    refine ⟨e, he, ?_⟩
+    rcases hk with hk | ⟨_, hk⟩
+    · rw [hk]; exact mem_orbit_self _
+    · exact hk
+  · rintro ⟨e, he, hk⟩
+    obtain ⟨v, hv⟩ := (initTable_defined_iff _ true k).mpr ⟨e, he, Or.inr ⟨rfl, hk⟩⟩
+    exact ⟨v, (ctrbl_call.1 _ _ _).mpr hv⟩
+
+/-! ## 8. Informational facts about the shipped tables
+
+That no two lines of one rotation class carry different images is *not* part of the property (with
+conflicting lines the last one would simply win, and every theorem above would still hold). It holds for the
+tables as shipped and is kept in `Cpl/Info/C15Tables.lean`, which the check builds and reports in its
+evidence without treating a failure as a broken obligation. -/
+
+/-! ## Non-vacuity -/
+
+/-- A user table with rotations: one line answers in all four orientations; other keys raise. -/
+example :
+    let tbl := initTable [((1, 2, 3, 4, 5), 7)] true
+    ctrblCall tbl (1, 2, 3, 4, 5) = .ok 7 ∧ ctrblCall tbl (1, 5, 2, 3, 4) = .ok 7 ∧
+    ctrblCall tbl (1, 4, 5, 2, 3) = .ok 7 ∧ ctrblCall tbl (1, 3, 4, 5, 2) = .ok 7 ∧
+    ctrblCall tbl (1, 2, 3, 5, 4) = .error .ValueError :=
+  ⟨(ctrbl_call.1 _ _ _).mpr (by decide), (ctrbl_call.1 _ _ _).mpr (by decide),
+   (ctrbl_call.1 _ _ _).mpr (by decide), (ctrbl_call.1 _ _ _).mpr (by decide),
+   ctrbl_call.2.1 _ _ (by decide)⟩
+
+/-- Without rotations only the listed orientation answers. -/
+example :
+    let tbl := initTable [((1, 2, 3, 4, 5), 7)] false
+    ctrblCall tbl (1, 2, 3, 4, 5) = .ok 7 ∧ ctrblCall tbl (1, 5, 2, 3, 4) = .error .ValueError :=
+  ⟨(ctrbl_call.1 _ _ _).mpr (by decide), ctrbl_call.2.1 _ _ (by decide)⟩
+
+/-- The hypothesis of `initTable_faithful` is needed: with two conflicting lines the later one owns the
+    whole rotation class. -/
+example :
+    let tbl := initTable [((0, 1, 0, 0, 0), 1), ((0, 0, 1, 0, 0), 2)] true
+    tbl.lookup (0, 1, 0, 0, 0) = some 2 ∧ tbl.lookup (0, 0, 1, 0, 0) = some 2 := by decide
+
+/-- Langton's table is not empty and its last line answers in all four orientations, so `langton_rot`
+    is not about a loop that always raises. (Stated relative to the generated table, not to its values.) -/
+example : ∃ e, langtonEntries.getLast? = some e ∧ ∀ k' ∈ orbit e.1, langtonLoop k' = .ok e.2 := by
+  refine ⟨_, rfl, fun k' hk' => ?_⟩
+  unfold langtonLoop langtonTable
+  rw [builtin_add_rotations.1]
+  exact (ctrbl_call.1 _ _ _).mpr (initTable_last_line _ _ rfl k' hk')
+
+/-- The same for Evoloop. -/
+example : ∃ e, evoloopEntries.getLast? = some e ∧ ∀ k' ∈ orbit e.1, evoloop k' = some e.2 := by
+  refine ⟨_, rfl, fun k' hk' => ?_⟩
+  unfold evoloop evoloopTable
+  rw [builtin_add_rotations.2, initTable_last_line _ _ rfl k' hk']
+
+/-- SDSR has extra assignments, and they are honoured. -/
+example : ∃ e, e ∈ sdsrExtra ∧ sdsrLoop e.1 = some e.2 := by
+  refine ⟨_, List.mem_of_getLast? (a := _) rfl, ?_⟩
+  exact sdsr_extras_honoured _ (List.mem_of_getLast? rfl)
+
+/-- The default rules on concrete neighbourhoods (independent of the tables); outside 0..8 the result is
+    Python's `None`. -/
+example :
+    sdsrDefault (3, 3, 3, 3, 3) = some 8 ∧ sdsrDefault (8, 1, 2, 3, 4) = some 0 ∧
+    sdsrDefault (4, 8, 0, 0, 0) = some 1 ∧ sdsrDefault (0, 8, 0, 0, 0) = some 0 ∧
+    sdsrDefault (0, 8, 3, 0, 0) = some 8 ∧ sdsrDefault (0, 1, 2, 0, 0) = some 1 ∧
+    sdsrDefault (1, 7, 2, 0, 0) = some 7 ∧ sdsrDefault (2, 3, 0, 0, 0) = some 1 ∧
+    evoloopDefault (8, 1, 2, 3, 4) = some 0 ∧ evoloopDefault (0, 8, 3, 0, 0) = some 8 ∧
+    evoloopDefault (5, 8, 0, 0, 0) = some 0 ∧ evoloopDefault (5, 0, 0, 0, 0) = some 8 ∧
+    evoloopDefault (0, 1, 2, 3, 4) = some 0 ∧ evoloopDefault (9, 0, 0, 0, 0) = none := by decide
+
+/-- 8 becomes 0 on concrete neighbourhoods, through the full loops. -/
+example : sdsrLoop (8, 1, 2, 3, 4) = some 0 ∧ evoloop (8, 0, 0, 0, 0) = some 0 :=
+  ⟨(eight_becomes_zero 1 2 3 4).1, (eight_becomes_zero 0 0 0 0).2⟩
+
+/-- The decision tables take every kind of branch. -/
+example :
+    sdsrSpec 0 1 1 0 0 = 1 ∧ sdsrSpec 1 7 1 0 0 = 7 ∧ sdsrSpec 1 6 1 0 0 = 6 ∧ sdsrSpec 1 4 1 0 0 = 4 ∧
+    sdsrSpec 1 7 0 0 0 = 8 ∧ sdsrSpec 2 3 0 0 0 = 1 ∧ sdsrSpec 2 2 0 0 0 = 2 ∧ sdsrSpec 2 0 0 0 0 = 8 ∧
+    sdsrSpec 4 1 1 0 0 = 0 ∧ sdsrSpec 4 1 1 1 1 = 8 ∧ sdsrSpec 3 0 0 0 0 = 8 ∧ sdsrSpec 8 8 8 8 8 = 0 ∧
+    sdsrSpec 1 8 0 0 0 = 1 ∧ sdsrSpec 1 8 5 0 0 = 8 ∧ sdsrSpec 6 8 1 1 0 = 1 ∧
+    evoloopSpec 0 0 0 0 0 = 0 ∧ evoloopSpec 3 0 0 0 0 = 8 ∧ evoloopSpec 3 8 0 0 0 = 0 := by decide
+
 end Cpl.C15
